@@ -249,6 +249,19 @@ func TestVerifC02Validate(t *testing.T) {
 	vfRegisterKinds()
 	rapid.Check(t, func(rt *rapid.T) {
 		base := vfGenValidPipe(rt, "main", vfGenCfg{maxNodes: 6, allowNoFlow: false}, "m.")
+		// one case in four: a pipeline WITHOUT a flow section (implicit flow = filters in definition
+		// order); the rules about filter names hold there as well, flow-node mutations do not apply
+		flowless := vfRange(rt, 0, 3, "flowless") == 0
+		pool := vfMutations
+		if flowless {
+			base.Flow = nil
+			pool = nil
+			for _, m := range vfMutations {
+				if m.name == "duplicate-filter-name" || m.name == "filter-named-END" {
+					pool = append(pool, m)
+				}
+			}
+		}
 		p := base.clone()
 		nmut := vfRange(rt, 1, 3, "nmut")
 		if vfRange(rt, 0, 9, "oneMut") < 6 {
@@ -256,7 +269,7 @@ func TestVerifC02Validate(t *testing.T) {
 		}
 		var applied []string
 		for tries := 0; len(applied) < nmut && tries < 12; tries++ {
-			m := vfMutations[vfRange(rt, 0, len(vfMutations)-1, "mutation")]
+			m := pool[vfRange(rt, 0, len(pool)-1, "mutation")]
 			if m.apply(rt, p) {
 				applied = append(applied, m.name)
 			}
@@ -302,6 +315,12 @@ func TestVerifC02Validate(t *testing.T) {
 		vf.Class("wrap=" + wrap, fmt.Sprintf("mutations=%d", len(applied)))
 		for _, r := range reasons {
 			vf.Class("invalid:" + r)
+			if flowless {
+				vf.Class("flowless:invalid:" + r)
+			}
+		}
+		if flowless {
+			vf.Class("base=flowless")
 		}
 		for _, a := range ambiguous {
 			vf.Class("ambiguous-" + a)
@@ -352,11 +371,14 @@ func TestVerifC02Validate(t *testing.T) {
 		}
 	})
 	if !t.Failed() {
-		floors := map[string]float64{"verdict=invalid-for-exactly-one-reason": 0.40, "wrap=globalfilter-before": 0.05, "wrap=globalfilter-after": 0.05}
+		floors := map[string]float64{"verdict=invalid-for-exactly-one-reason": 0.35, "wrap=globalfilter-before": 0.05, "wrap=globalfilter-after": 0.05}
 		for _, r := range []string{"dup-filter-name", "reserved-filter-name", "missing-filter", "undeclared-result", "target-earlier",
 			"target-self", "target-unknown", "target-duplicated", "target-empty", "target-shared-with-END-node-alias"} {
 			floors["invalid:"+r] = 0.01
 		}
+		floors["base=flowless"] = 0.15
+		floors["flowless:invalid:reserved-filter-name"] = 0.05
+		floors["flowless:invalid:dup-filter-name"] = 0.05
 		vfHealth(t, vf, floors)
 	}
 }
